@@ -213,6 +213,7 @@ CHECKS = {
 NOT_YET = {}
 
 EXTENSIONS = {
+    "X06": "spec/CertIssue.tla - what relic puts into the X.509 objects it issues (x509-request, x509-self-sign, x509-sign with --copy-extensions / --cross-sign): the decision table over flags x submitted content x issuer, replayed on the real lib/x509tools functions with the issued object parsed and projected",
     "X05": "spec/CloudKey.tla - a key held by a cloud key-management service (token/awstoken: algorithm selection, remote GetPublicKey / Sign on digests, service-side validation, SDK retries), replayed on the real token and AWS SDK in front of a KMS stand-in",
     "X04": "spec/WorkerLife.tla - the life of the token worker processes (spawn, login, serve, fatal error / health check / kill, PIN change, Close), scenario logs of the real parent and real worker processes trace-validated",
     "X03": "spec/P11Session.tla + P11Proto.tla (+ ScdPair.tla) - the PKCS#11 token call by call (slot selection, login, key lookup, RSA/PSS/ECDSA signing, key generation / import, certificate import), replayed through a PKCS#11 wire module against a harness-owned token model and trace-validated",
